@@ -207,18 +207,21 @@ def run(c, chk):
     for f in sorted(mod.funcs.values(), key=lambda x: x.name):
         for call in f.calls():
             n = call.callee_name()
-            if n is None or n not in may_fail or n in ALLOC or n in c.unknown_funcs or f.name in c.unknown_funcs:
+            if n is None or n not in may_fail or n in ALLOC:
                 continue
             nprop += 1
             if result_used(f, call):
                 continue
-            key = 'ignored-result:%s:%s' % (f.name, n)
-            a = next((x for x in allow_ign if x['function'] == f.name and x['callee'] == n), None)
+            # a helper split off a known function is reported under that function
+            own = c.owners(f.name)
+            fname_ = sorted(own)[0] if len(own) == 1 else f.name
+            key = 'ignored-result:%s:%s' % (fname_, n)
+            a = next((x for x in allow_ign if x['function'] == fname_ and x['callee'] == n), None)
             if a:
                 chk.ok('R18.3', key, 'allowed: ' + a['reason'], nontrivial=False)
             elif key not in seen:
                 seen.add(key)
-                chk.fail('R18.3', key, c.where(call), '%s() ignores the result of %s(), which fails when an allocation fails' % (f.name, n))
+                chk.fail('R18.3', key, c.where(call), '%s() ignores the result of %s(), which fails when an allocation fails' % (fname_, n))
     chk.ok('R18.3', '%d call sites of functions that can fail on allocation' % nprop, 'result tested, returned or stored (exceptions listed)', sample=True)
     chk.floor('R18.3 propagation call sites', nprop, 30)
 
